@@ -11,6 +11,7 @@ import (
 	"fmt"
 	"math"
 	"net"
+	"runtime"
 	"sort"
 	"sync"
 	"sync/atomic"
@@ -133,6 +134,7 @@ func runC17Conc(c C17Conc, info *kit.Info) *kit.Finding {
 			}
 		}()
 	}
+	var progress atomic.Int64
 	barrier := newSpinBarrier(c.Workers)
 	if c.Burst {
 		c.Ops = min(c.Ops, 150)
@@ -142,7 +144,7 @@ func runC17Conc(c C17Conc, info *kit.Info) *kit.Finding {
 		go func(w int) {
 			defer wg.Done()
 			defer barrier.leave()
-			for i := 0; i < c.Ops && fnd.Load() == nil; i++ {
+			for i := 0; i < c.Ops && fnd.Load() == nil && !stop.Load(); i++ {
 				var n int64
 				if c.Burst {
 					// everybody is the same client in this round, and starts together
@@ -183,16 +185,34 @@ func runC17Conc(c C17Conc, info *kit.Info) *kit.Finding {
 				inner[k] = append(inner[k], ivl{t1, t2})
 				outer[k] = append(outer[k], ivl{t0, t3})
 				mu.Unlock()
+				progress.Add(1)
 			}
 		}(w)
 	}
 	done := make(chan struct{})
 	go func() { wg.Wait(); close(done) }()
-	select {
-	case <-done:
-	case <-time.After(20 * time.Second):
-		stop.Store(true)
-		return kit.Violation("tunneltime:wedged", "workers did not finish within 20 s (a metrics call never returned; mutex left locked?)")
+	// A wedge is the absence of progress, not slowness: a busy host may need long for a burst history.
+	lastProgress, lastChange, began := int64(-1), time.Now(), time.Now()
+wait:
+	for {
+		select {
+		case <-done:
+			break wait
+		case <-time.After(500 * time.Millisecond):
+		}
+		if p := progress.Load(); p != lastProgress {
+			lastProgress, lastChange = p, time.Now()
+		}
+		if time.Since(lastChange) > 15*time.Second {
+			stop.Store(true)
+			return kit.Violation("tunneltime:wedged", "no worker completed an operation for 15 s (%d of %d done; a metrics call never returned; mutex left locked?)", lastProgress, c.Workers*c.Ops)
+		}
+		if time.Since(began) > 3*time.Minute {
+			stop.Store(true)
+			info.Inconclusive = "time budget: the workload did not finish within 3 minutes on this host (still making progress)"
+			<-done
+			return nil
+		}
 	}
 	stop.Store(true)
 	sdone := make(chan struct{})
@@ -283,6 +303,7 @@ func (b *spinBarrier) wait() {
 		return
 	}
 	for t := time.Now(); b.gen.Load() == g && time.Since(t) < 200*time.Millisecond; {
+		runtime.Gosched() // the other workers may need this core to arrive
 	}
 }
 
